@@ -17,7 +17,7 @@ FORMULAS = {
     "C07": {"beans": {"DumpSucceeds", "LoadSucceeds", "RoundTrip", "LoadAsSpecified", "OnlyJsonOut"},
             "rpc": {"RpcTransparent", "LoadSucceeds"}},
     "C15": {"plain": {"DumpSucceeds", "OnlyJsonOut", "LoadSucceeds", "RoundTrip", "PureDump", "PureLoad"},
-            "beans": {"PureDump", "PureLoad"}, "fail": {"PureDump", "PureLoad"}, "custom": {"PureDump"}, "rpc": {"PureDump"}},
+            "beans": {"PureDump", "PureLoad", "OnlyJsonOut"}, "fail": {"PureDump", "PureLoad", "OnlyJsonOut", "DumpSucceeds"}, "custom": {"PureDump"}, "rpc": {"PureDump"}},
     "C20": {"custom": {"DumpSucceeds", "DumpAsSpecified"}, "beans": {"DumpAsSpecified"}},
 }
 MODES = {"C07": ["beans", "rpc"], "C15": ["plain", "beans", "fail"], "C20": ["custom", "beans"]}
